@@ -126,7 +126,24 @@ fn body(s: &Shape, call: &dyn Fn(&[String]) -> String) -> String {
     match s.ret {
         Some(rt) => {
             let _ = writeln!(b, "if d == 0 {{ return {}; }}", ret_from_u64(rt, base));
-            let args1: Vec<String> = std::iter::once("d - 1".to_string()).chain(s.args.iter().enumerate().map(|(i, &t)| next_arg(t, &format!("a{}", i), 1 + i as u64))).collect();
+            let mut args1: Vec<String> = std::iter::once("d - 1".to_string()).chain(s.args.iter().enumerate().map(|(i, &t)| next_arg(t, &format!("a{}", i), 1 + i as u64))).collect();
+            // argument expressions that themselves use the machinery: a nested recursive call, or a block that
+            // mutates a mutable capture (both must be evaluated before the captures are re-borrowed for the call)
+            if let Some(j) = s.args.iter().position(|&t| t % 6 <= 2) {
+                let cast = ["", " as i64", " as usize % 97"][s.args[j] as usize % 6];
+                match r.below(4) {
+                    0 | 1 => {
+                        let inner: Vec<String> = std::iter::once("d - 1".to_string()).chain(s.args.iter().enumerate().map(|(i, &t)| next_arg(t, &format!("a{}", i), 20 + i as u64))).collect();
+                        args1[j + 1] = format!("{{ let t = {}; ({}){} }}", call(&inner), ret_to_u64(rt, "t"), cast);
+                    }
+                    2 => {
+                        if let Some(&(i, t)) = muts.iter().find(|(_, t)| t % 6 <= 2) {
+                            args1[j + 1] = format!("{{ {} ({}){} }}", mutate(t, &format!("c{}", i), "7"), read_u64(t, &format!("c{}", i), true), cast);
+                        }
+                    }
+                    _ => {}
+                }
+            }
             let _ = writeln!(b, "let r1 = {};", call(&args1));
             for &(i, t) in &muts {
                 if r.below(2) == 0 {
@@ -309,7 +326,7 @@ fn main() {
          x (1..=4 arguments) x (return type or none) x (recursive calls written with or without a trailing comma) = 496 shapes, all \
          emitted, each with generated capture/argument/return types from {u64, i64, usize, Vec<u64>, String, (u32,u32)} and a generated \
          body template (reads of shared captures, mutations of mutable captures before/between/after the recursive calls, one or two \
-         recursive calls, branching on arguments; the first argument bounds the depth), quick 1 template per shape, thorough 8. For \
+         recursive calls, branching on arguments, argument expressions that nest a recursive call or mutate a mutable capture; the first argument bounds the depth), quick 1 template per shape, thorough 8. For \
          each program the generator also emits the twin: a plain fn taking the same arguments plus every capture explicitly, with the \
          same body where name!(args) becomes twin(args, captures). Oracle: the generated crate compiles against /repo/rlib/lambda and \
          for every program the macro version and the twin print the same Debug rendering of (results of two invocations, every \
